@@ -1,11 +1,3 @@
 package main
 
-import (
-	"fmt"
-
-	"arkverif/sim"
-)
-
-func cmdPar(args []string) int                  { fmt.Println("not built yet"); return 2 }
-func replayPar(rp *sim.Replay, path string) int { fmt.Println("not built yet"); return 2 }
-func checkPar(tier string, seed uint64) int     { fmt.Println("not built yet"); return 2 }
+func cmdPar(args []string) int { return 2 }
